@@ -922,7 +922,13 @@ def gen_sequence(r, kind, n_ops, ops):
 
 def run_sequence(kind, config_name, seed, seq, ops, stop_at_first=True, skip_signatures=()):
     """returns (problems, twin) — problems: list of (step index, label, text)"""
-    tw = Twin(kind, config_name, seed)
+    try:
+        tw = Twin(kind, config_name, seed)
+    except Exception as ex:  # noqa  (a connection that cannot even hand the target over)
+        class _Empty(object):
+            steps, policy_records, buff_records = [], [], []
+            observations, operand_origin = collections.Counter(), collections.Counter()
+        return [(0, "setup", "the target could not be handed over: %s" % type(ex).__name__, "twin:setup")], _Empty()
     problems = []
     try:
         for idx, (i, oseed) in enumerate(seq):
@@ -1106,7 +1112,10 @@ def correspondence(ctx):
     ops = build_ops()
     # -- (a)
     wc = WireCheck()
-    wc.run(ctx, c)
+    try:
+        wc.run(ctx, c)
+    except Exception as ex:  # noqa  (a connection on which not even a proxy can be obtained)
+        c.disagreements.append(dict(case=dict(wire="setup"), op="wire", impl="the wire check could not run: %s: %s" % (type(ex).__name__, str(ex)[:200]), model="-"))
     flat_lines, index = [], []
     for k, ls in enumerate(wc.lines):
         for l in ls:
@@ -1157,7 +1166,10 @@ def correspondence(ctx):
                                         op="twin:" + label, impl=text[:700], model="(proxy == twin)"))
         if len(c.samples) < 8 and k % 131 == 7:
             c.samples.append(dict(kind=kind, config=config_name, steps=[(s["label"], s["operands"], str(s["proxy"])[:80]) for s in tw.steps[:8]]))
-    ok, obs = with_exception_probe("classic")
+    try:
+        ok, obs = with_exception_probe("classic")
+    except Exception as ex:  # noqa
+        ok, obs = False, "probe crashed: %s" % type(ex).__name__
     observations["with-block left WITH an exception (outside the property): " + (obs or "?")] += 1
     if not ok:
         c.disagreements.append(dict(case=dict(probe="with-exception"), op="with-exception", impl="connection unusable after leaving `with proxy:` with an exception", model="usable"))
@@ -1178,7 +1190,11 @@ def correspondence(ctx):
             chunk, maxchunk, factor, n, term = key
             buff_lines.append("fwd buffiter %d %d %d %d %s" % (chunk, maxchunk, factor, n, "-" if term is None else name_tok(term)))
     # the whole parameter grid on a 25-item list, model side vs implementation
-    grid = grid_buffiter()
+    try:
+        grid = grid_buffiter()
+    except Exception as ex:  # noqa
+        grid = []
+        c.disagreements.append(dict(case=dict(buffiter="grid"), op="buffiter", impl="the grid could not run: %s" % type(ex).__name__, model="-"))
     for (chunk, maxchunk, factor, n, term, got) in grid:
         key = (chunk, maxchunk, factor, n, term)
         if key not in buff_keys:
@@ -1313,7 +1329,11 @@ def boundary_sequences(ops):
 def buffiter_oracle():
     """the statement on the real code alone: for chunk>=1, max_chunk>=1, integer factor>=1 every item arrives; other
     integer parameters are refused with ValueError before anything is delivered"""
-    for (chunk, maxchunk, factor, n, term, res) in grid_buffiter():
+    try:
+        grid = grid_buffiter()
+    except Exception:  # noqa
+        return None
+    for (chunk, maxchunk, factor, n, term, res) in grid:
         if term is not None:
             continue
         if factor >= 1 and chunk >= 1 and maxchunk >= 1:
@@ -1390,6 +1410,13 @@ def describe_seq(kind, cfg, seed, seq, ops):
 
 def known_probes(ctx):
     """defects of the code the check knows by signature: reproduced on the real code every run"""
+    try:
+        return _known_probes()
+    except Exception:  # noqa  (the connection does not work at all: nothing to say about this finding)
+        return []
+
+
+def _known_probes():
     sess = Session("classic")
     try:
         p = sess.lend([1, 2])
